@@ -583,7 +583,12 @@ func addNearDuplicates(t *rapid.T, w *World) {
 
 // GenExposureWorld draws an NP-only world biased for exposure analysis (DESIGN C06/C07).
 func GenExposureWorld(t *rapid.T) *World {
-	w := GenWorld(t, GenCfg{NoNamedRisk: true, Exposureish: true, MaxWl: 4, MaxNP: 4})
+	cfg := GenCfg{NoNamedRisk: true, Exposureish: true, MaxWl: 4, MaxNP: 4}
+	if rapid.IntRange(0, 4).Draw(t, "allpods") == 0 {
+		// a dump of running pods: every workload is a bare Pod (no owner - whatever is kept per owner is shared by them)
+		cfg.Kinds = []string{"Pod"}
+	}
+	w := GenWorld(t, cfg)
 	if len(w.NPs) == 0 && rapid.Bool().Draw(t, "seednp") {
 		w.NPs = append(w.NPs, NetPol{Ns: w.Namespaces[0].Name, Name: "np-seed", PolicyTypes: []string{"Ingress", "Egress"}})
 	}
